@@ -137,7 +137,8 @@ class JointRecurrenceNetwork(JointRecurrencePlot, Network):
 
                 #  Set diagonal of JR to zero to avoid self-loops in the joint
                 #  recurrence network
-                A = self.JR - np.eye((self.N-np.abs(lag)), dtype="int8")
+                A = self.JR.copy()
+                np.fill_diagonal(A, 0)
 
                 #  Create a Network object interpreting the recurrence matrix
                 #  as the graph adjacency matrix. Joint recurrence networks
@@ -185,7 +186,7 @@ class JointRecurrenceNetwork(JointRecurrencePlot, Network):
         #  Set diagonal of JR to zero to avoid self-loops in the joint
         #  recurrence network
         A = self.JR.copy()
-        A.flat[::self.N+1] = 0
+        np.fill_diagonal(A, 0)
 
         #  Create a Network object interpreting the recurrence matrix as the
         #  graph adjacency matrix. Joint recurrence networks are undirected by
@@ -208,7 +209,7 @@ class JointRecurrenceNetwork(JointRecurrencePlot, Network):
         #  Set diagonal of JR to zero to avoid self-loops in the joint
         #  recurrence network
         A = self.JR.copy()
-        A.flat[::self.N+1] = 0
+        np.fill_diagonal(A, 0)
 
         #  Create a Network object interpreting the recurrence matrix as the
         #  graph adjacency matrix. Joint recurrence networks are undirected by
@@ -231,7 +232,7 @@ class JointRecurrenceNetwork(JointRecurrencePlot, Network):
         #  Set diagonal of JR to zero to avoid self-loops in the joint
         #  recurrence network
         A = self.JR.copy()
-        A.flat[::self.N+1] = 0
+        np.fill_diagonal(A, 0)
 
         #  Create a Network object interpreting the recurrence matrix as the
         #  graph adjacency matrix. Joint recurrence networks are undirected by
